@@ -122,6 +122,8 @@ pub struct DicParams {
     pub big_matrix: bool,
     /// compounds of 31..127 units (the split arrays are length-prefixed with one byte)
     pub many_units: bool,
+    /// rows in alternative but equivalent CSV spellings (see `Entry::syntax`), one row in five
+    pub csv_syntax: bool,
 }
 
 impl DicParams {
@@ -147,6 +149,7 @@ impl DicParams {
             homographs: 127,
             big_matrix: false,
             many_units: true,
+            csv_syntax: true,
         }
     }
 }
@@ -165,6 +168,7 @@ struct BaseSpec {
     dic_form: Option<u16>,
     syn: Vec<u32>,
     esc: u8,
+    syntax: u8,
 }
 
 fn base_spec(p: &DicParams) -> BoxedStrategy<BaseSpec> {
@@ -182,6 +186,7 @@ fn base_spec(p: &DicParams) -> BoxedStrategy<BaseSpec> {
         vec(prop_oneof![0u32..10, any::<u32>()], 0..3).boxed()
     };
     let esc = if p.escapes { prop_oneof![4 => Just(0u8), 1 => Just(1u8), 1 => Just(2u8)].boxed() } else { Just(0u8).boxed() };
+    let syntax = if p.csv_syntax { prop_oneof![4 => Just(0u8), 1 => 0u8..128].boxed() } else { Just(0u8).boxed() };
     (
         key,
         any::<u16>(),
@@ -194,9 +199,9 @@ fn base_spec(p: &DicParams) -> BoxedStrategy<BaseSpec> {
         other,
         prop::option::weighted(0.25, any::<u16>()),
         syn,
-        esc,
+        (esc, syntax),
     )
-        .prop_map(|(key, left, right, cost, pos, non_indexed, form_sel, reading, norm, dic_form, syn, esc)| BaseSpec {
+        .prop_map(|(key, left, right, cost, pos, non_indexed, form_sel, reading, norm, dic_form, syn, (esc, syntax))| BaseSpec {
             key,
             left,
             right,
@@ -209,6 +214,7 @@ fn base_spec(p: &DicParams) -> BoxedStrategy<BaseSpec> {
             dic_form,
             syn,
             esc,
+            syntax,
         })
         .boxed()
 }
@@ -301,9 +307,9 @@ fn build_entries(
             if b.form_sel & 2 != 0 {
                 e.normalized = b.norm.clone();
             }
-            if b.form_sel == 7 {
+            if b.form_sel >= 6 {
+                // 6: the reading equals the headword (stored elided), 7: an own reading
                 e.headword = format!("{}{}", b.key, b.norm);
-                // defaults follow the headword when equal
                 if b.form_sel & 1 == 0 {
                     e.reading = e.headword.clone();
                 }
@@ -314,6 +320,7 @@ fn build_entries(
         }
         e.synonyms = b.syn.clone();
         e.esc = b.esc;
+        e.syntax = b.syntax;
         out.push(e);
     }
     // a lexicon without any indexed row makes the compiler panic (known finding F14): keep one
@@ -406,6 +413,44 @@ fn build_entries(
         }
         out.push(e);
     }
+    // Inline references name a row by (surface, POS, reading) and are resolved own-dictionary-first, first match
+    // wins: another row (a twin, the compound itself, a headword that equals a later key) may capture the
+    // reference. As long as the captured row has the same key the word stays well formed; if its key differs the
+    // declared units no longer concatenate to the key (the input class of known finding F15), so such a word is
+    // turned into a plain one.
+    let resolve_key = |own: &Vec<Entry>, r: &WRef| -> Option<String> {
+        match r {
+            WRef::Sys(n) => {
+                if user {
+                    system.and_then(|s| s.get(*n as usize)).map(|e| e.key.clone())
+                } else {
+                    own.get(*n as usize).map(|e| e.key.clone())
+                }
+            }
+            WRef::User(n) => own.get(*n as usize).map(|e| e.key.clone()),
+            WRef::Inline { surface, pos, reading } => own
+                .iter()
+                .find(|e| &e.key == surface && &e.pos == pos && &e.reading == reading)
+                .or_else(|| if user { system.and_then(|s| s.iter().find(|e| &e.headword == surface && &e.pos == pos && &e.reading == reading)) } else { None })
+                .map(|e| e.key.clone()),
+        }
+    };
+    let snapshot = out.clone();
+    for e in out.iter_mut() {
+        let has_inline = e.split_a.iter().chain(e.split_b.iter()).any(|r| matches!(r, WRef::Inline { .. }));
+        if !has_inline {
+            continue;
+        }
+        let ok = |refs: &Vec<WRef>| -> bool {
+            refs.is_empty() || refs.iter().map(|r| resolve_key(&snapshot, r)).collect::<Option<Vec<String>>>().map(|v| v.concat() == e.key).unwrap_or(false)
+        };
+        if !(ok(&e.split_a) && ok(&e.split_b)) {
+            e.split_a.clear();
+            e.split_b.clear();
+            e.word_structure.clear();
+            e.mode = 'A';
+        }
+    }
     out
 }
 
@@ -424,6 +469,9 @@ pub fn dic_model(p: DicParams) -> BoxedStrategy<DicModel> {
     let p2 = p.clone();
     let user = (vec(base_spec(&p), 1..=p.max_user_entries.max(1)), vec(compound_spec(), 0..=2));
     let mx = if p.big_matrix { prop_oneof![15 => matrix(p.max_dim, p.square_only), 1 => big_matrix()].boxed() } else { matrix(p.max_dim, p.square_only) };
+    // a twin of one base row: same key and part of speech, other reading / headword, on an earlier or later line
+    // (inline references name a row by surface, part of speech and reading: they must pick the right twin)
+    let twin = prop::option::weighted(0.15, (any::<u16>(), 0u8..4, any::<bool>()));
     let homo = if p.homographs > 0 { prop::option::weighted(1.0 / 16.0, (any::<u16>(), boundary_len(p.homographs), any::<bool>())).boxed() } else { Just(None).boxed() };
     (
         mx,
@@ -431,8 +479,42 @@ pub fn dic_model(p: DicParams) -> BoxedStrategy<DicModel> {
         vec(compound_spec(), 0..=p.max_compound),
         vec(user, p.min_users.min(p.max_users)..=p.max_users),
         homo,
+        twin,
     )
-        .prop_map(move |(matrix, bases, comps, users, homo)| {
+        .prop_map(move |(matrix, mut bases, comps, users, homo, twin)| {
+            if let Some((i, kind, before)) = twin {
+                let first = if p2.anchor_pos { 3.min(bases.len()) } else { 0 };
+                if bases.len() > first {
+                    let i = first + ix(i, bases.len() - first);
+                    let mut t = bases[i].clone();
+                    match kind {
+                        0 => {
+                            t.form_sel |= 1;
+                            t.reading = format!("{}ツ", t.reading);
+                        }
+                        1 => {
+                            // the twin's headword differs from the key and its reading equals that headword; the
+                            // original keeps reading = key
+                            t.form_sel = 6;
+                            bases[i].form_sel &= !1;
+                            if bases[i].form_sel >= 6 {
+                                bases[i].form_sel = 2;
+                            }
+                        }
+                        2 => {
+                            t.form_sel = 7;
+                            bases[i].form_sel |= 1;
+                        }
+                        _ => t.cost = t.cost.wrapping_add(3),
+                    }
+                    t.dic_form = None;
+                    if before {
+                        bases.insert(i, t);
+                    } else {
+                        bases.insert(i + 1, t);
+                    }
+                }
+            }
             let mut system = build_entries(&p2, matrix.nl, matrix.nr, bases, comps, SYS_POS, false, None);
             let mut us = Vec::new();
             for (ub, uc) in users {
